@@ -105,6 +105,9 @@ FirstIdx(s, I, n) == CHOOSE i \in I : s[i].name = n /\ \A k \in I : s[k].name = 
 MemIdx(s, i, kind) == {j \in DOMAIN s[i].mem : s[i].mem[j].m = kind}
 UseNames(s, i) == {s[i].mem[j].name : j \in MemIdx(s, i, "use")}
 DirectAttrNames(s, i) == {s[i].mem[j].name : j \in MemIdx(s, i, "attr")}
+RECURSIVE DirectNm(_)
+DirectNm(ms) == IF ms = << >> THEN << >> ELSE (IF ms[1].m = "attr" THEN <<ms[1].name>> ELSE << >>) \o DirectNm(Tail(ms))
+DirectSeq(s, i) == DirectNm(s[i].mem)                     \* names of the container's own attributes, in order
 SeqRange(q) == {q[x] : x \in DOMAIN q}
 Distinct(q) == \A x, y \in DOMAIN q : x # y => q[x] # q[y]
 
@@ -237,9 +240,16 @@ GroupRules(s, i) ==
   \cup (IF s[i].variant /\ \E j \in MemIdx(s, i, "attr") : AttrGrammar(s[i].mem[j]) = {} /\ HasFac(s[i].mem[j], "required")
         THEN {"S_VariantRequired"} ELSE {})
 
-\* q = the element's expanded attribute names (a value)
-ElemExpRules(s, i, q) ==
-       (IF ~Distinct(q) THEN {"S_DupAttr"} ELSE {})
+\* q = the element's attribute names after FULL expansion: every `use` stands for the member list of its group,
+\* textually, once per use-path (a group reachable along two paths is expanded twice: the path multiset);
+\* d = the names of the element's own attributes.  Two own attributes of one name break S_DupAttr; a name that
+\* occurs twice with at least one occurrence arriving through a `use` path breaks S_DupAttrViaUse -- in particular
+\* a group shared along two distinct use-paths below the element (diamond, same group used twice, re-use one
+\* level up) always does, because groups have non-empty expansions.
+CountIn(q, n) == Cardinality({x \in DOMAIN q : q[x] = n})
+ElemExpRules(s, i, q, d) ==
+       (IF \E n \in SeqRange(d) : CountIn(d, n) >= 2 THEN {"S_DupAttr"} ELSE {})
+  \cup (IF \E n \in SeqRange(q) : CountIn(q, n) >= 2 /\ CountIn(q, n) > CountIn(d, n) THEN {"S_DupAttrViaUse"} ELSE {})
   \cup (IF \E j \in MemIdx(s, i, "con") : ~(ConNames(s[i].mem[j]) \subseteq SeqRange(q)) THEN {"S_ElemConUnknown"} ELSE {})
 ElemRules(s, c, i) ==
        FacetRules(s[i].fac, ElemFacets)
@@ -250,7 +260,7 @@ ElemRules(s, c, i) ==
         THEN {"S_AliasDangling"} ELSE {})
   \cup (IF \E j, k \in MemIdx(s, i, "child") : j < k /\ s[i].mem[j].name = s[i].mem[k].name
         THEN {"S_DupChild"} ELSE {})
-  \cup (IF c.ok THEN UNION {ElemExpRules(s, i, q) : q \in {ExpNameSeq(s, i)}} ELSE {})
+  \cup (IF c.ok THEN UNION {ElemExpRules(s, i, q, d) : q \in {ExpNameSeq(s, i)}, d \in {DirectSeq(s, i)}} ELSE {})
 
 EnumRules(s, i) ==
   LET it == s[i].items IN
@@ -277,7 +287,7 @@ Rules == {"G_BadChar", "G_Stray", "G_TopKeyword", "G_DupDecl", "G_EnumKeyKind", 
           "G_UnknownType", "G_ArityNotInt", "G_ArityNeg", "G_ArityOrder", "G_ArityBound", "G_DefaultTok",
           "G_FacetUnknown", "G_FacetDup", "G_FacetValTok",
           "S_UseCycle", "S_DanglingUse", "S_GroupConUnknown", "S_VariantUse", "S_VariantRequired",
-          "S_ElemFacetName", "S_AliasDangling", "S_ChildDangling", "S_DupChild", "S_DupAttr", "S_ElemConUnknown",
+          "S_ElemFacetName", "S_AliasDangling", "S_ChildDangling", "S_DupChild", "S_DupAttr", "S_DupAttrViaUse", "S_ElemConUnknown",
           "S_RequiresArity", "S_EnumTarget", "S_RefNamespace", "S_VectorFileBool", "S_CharsUnbounded",
           "S_PatternNonText", "S_MinMaxNonNumeric", "S_MinMaxValue", "S_MinGtMax", "S_PositiveNonNumeric",
           "S_RequiredDefault", "S_EnumDefaultNotKw", "S_DefaultForbidden", "S_BoolDefault", "S_StringDefault",
@@ -429,6 +439,16 @@ Seed == [
     GroupD("g3", FALSE, <<Attr("d", GoodT.str)>>),
     GroupD("g4", TRUE, <<Attr("v", GoodT.int), Attr("w", GoodT.dbl0), Con("exclusive", <<<<"v">>, <<"w">>>>)>>),
     EnumD("x1", "", <<Item("k1", "id", "0", "num")>>) >>,
+  \* a `use` DAG of depth 4 below one top-level use (x1 -> mid -> top -> {left -> leaf, right}); leaf is also shared,
+  \* validly, with another element
+  dag   |-> <<
+    GroupD("leaf", FALSE, <<Attr("r", GoodT.rng13)>>),
+    GroupD("left", FALSE, <<Use("leaf"), Attr("s", GoodT.vec3)>>),
+    GroupD("right", FALSE, <<Attr("m", GoodT.dbl0)>>),
+    GroupD("top", FALSE, <<Use("left"), Use("right")>>),
+    GroupD("mid", FALSE, <<Attr("k", GoodT.int), Use("top")>>),
+    ElemD("x1", "", << >>, <<Attr("n", GoodT.id), Use("mid"), Con("exclusive", <<<<"r">>, <<"k", "m">>>>)>>),
+    ElemD("x2", "", << >>, <<Use("leaf"), Attr("s", GoodT.int)>>) >>,
   real  |-> <<ExternD("mjcf.schema")>>
 ]
 
@@ -690,14 +710,28 @@ M_S_DupChild ==
     /\ Mut(AddMem(sch, i, Child(sch[i].mem[j].name, c)), "S_DupChild", "element")
 \* duplicate attributes: directly, through use, through nested use, by using a group twice
 UsedByElem(s, i) == \E e \in ElemIdx(s) : i \in Above(s, e) \/ e \in Above(s, i)
-M_S_DupAttr ==
-  \/ \E i \in ContIdx(sch), e \in ElemIdx(sch), x \in 1..4 :          \* a name already in an expansion that contains i
-       /\ e \in Above(sch, i) /\ x <= Len(ExpNameSeq(sch, e))
-       /\ Mut(AddMem(sch, i, Attr(ExpNameSeq(sch, e)[x], GoodT.int)), "S_DupAttr", Kind(sch, i))
-  \/ \E e \in ElemIdx(sch), g \in GroupIdx(sch) :                       \* use a group that is already expanded
-       /\ sch[g].name \in Reach(sch, e)
-       /\ Mut(AddMem(sch, e, Use(sch[g].name)), "S_DupAttr", "element")
+M_S_DupAttr ==          \* two own attributes of one element with the same name
+  \/ \E e \in ElemIdx(sch), x \in 1..4 :
+       /\ x <= Len(DirectSeq(sch, e))
+       /\ Mut(AddMem(sch, e, Attr(DirectSeq(sch, e)[x], GoodT.int)), "S_DupAttr", "element")
   \/ Mut(Append(sch, ElemD(Z, "", << >>, <<Attr(Z, GoodT.int), Attr(Z, GoodT.dbl0)>>)), "S_DupAttr", "newelement")
+M_S_DupAttrViaUse ==
+  \/ \E i \in ContIdx(sch), e \in ElemIdx(sch), x \in 1..6 :          \* a name already in an expansion that contains i
+       /\ e \in Above(sch, i) /\ x <= Len(ExpNameSeq(sch, e))
+       /\ ~(i = e /\ ExpNameSeq(sch, e)[x] \in DirectAttrNames(sch, e))
+       /\ Mut(AddMem(sch, i, Attr(ExpNameSeq(sch, e)[x], GoodT.int)), "S_DupAttrViaUse", Kind(sch, i))
+  \/ \E e \in ElemIdx(sch), g \in GroupIdx(sch) :                       \* the element itself uses a group twice
+       /\ sch[g].name \in Reach(sch, e)
+       /\ Mut(AddMem(sch, e, Use(sch[g].name)), "S_DupAttrViaUse", "element")
+  \* sharing INSIDE the group graph, below one top-level use: group i (part of some element's expansion) gets
+  \* `use g` although g is already part of that expansion -- g used twice by i, g re-used one level (or more) up,
+  \* or a diamond (i and a sibling branch both reach g); no cycle is created
+  \/ \E i \in GroupIdx(sch), g \in GroupIdx(sch), e \in ElemIdx(sch) :
+       /\ ~sch[i].variant /\ i # g /\ sch[i].name \notin Reach(sch, g)
+       /\ sch[i].name \in Reach(sch, e) /\ sch[g].name \in Reach(sch, e)
+       /\ Mut(AddMem(sch, i, Use(sch[g].name)), "S_DupAttrViaUse",
+              IF sch[g].name \in UseNames(sch, i) THEN "shared-twice"
+              ELSE IF sch[g].name \in Reach(sch, i) THEN "shared-up" ELSE "shared-diamond")
 
 MutNext ==
   /\ Mutate /\ phase = "grow" /\ broken = {} /\ (ngrow >= MutFrom \/ IsExtern(sch))
@@ -733,6 +767,7 @@ MutNext ==
      \/ On("S_ChildDangling") /\ M_S_ChildDangling
      \/ On("S_DupChild") /\ M_S_DupChild
      \/ On("S_DupAttr") /\ M_S_DupAttr
+     \/ On("S_DupAttrViaUse") /\ M_S_DupAttrViaUse
      \/ On("S_ElemConUnknown") /\ M_S_ElemConUnknown
      \/ On("S_RequiresArity") /\ M_S_RequiresArity
      \/ On("S_EnumTarget") /\ M_S_EnumTarget
@@ -831,8 +866,9 @@ GrowMonotone == [][(ev'.op = "grow") =>
 AuxKeeps == [][(ev'.op \in {"pump", "noise"}) => (sch' = sch /\ broken' = broken)]_vars
 
 \* ---- configuration constants (cfg files cannot hold sets of strings with quotes comfortably) -----
-AllSeeds   == {"empty", "good", "cons", "real"}
-CoreSeeds  == {"empty", "good", "cons"}
+AllSeeds   == {"empty", "good", "cons", "dag", "real"}
+CoreSeeds  == {"empty", "good", "cons", "dag"}
+GrowSeeds  == {"empty", "good", "cons"}
 AllT       == DOMAIN GoodT
 FewT       == {"int", "vec3", "str", "enum", "ref", "strreq"}
 NoT        == {}
